@@ -179,4 +179,112 @@ theorem init_tail_eq (self : Code2.Self) (vector : Str) :
       | some t => exact fin _
     · exact fin _
 
+
+namespace Aux
+
+theorem fmt2 (a b : Str) : Py.format c!"{0}:{1}" [a, b] = a ++ ':' :: b := by
+  simp [Py.format, Py.formatAux, Py.fmtField]
+
+def cleanBody (m : List (Str × Str)) (nd : Str) : List Str → Str → Option (List Str) :=
+  fun (st : (List Str)) (metric : Str) => (do
+      let vector := st
+      let vector ← (if (Py.contains metric m = true) then (do
+          let t1 ← Py.getitem metric m
+          let value_ : Str := t1
+          let vector ← (if (¬ (value_ = nd)) then (do
+              let vector : List Str := vector ++ [(Py.format c!"{0}:{1}" [metric, value_])]
+              pure vector) else (do
+              pure vector))
+          pure vector) else (do
+          pure vector))
+      pure vector)
+
+def cleanF (m : List (Str × Str)) (nd : Str) : Str → Option Str :=
+  fun k =>
+    match lookup k m with
+    | some v => if v ≠ nd then some (k ++ ':' :: v) else none
+    | none => none
+
+theorem clean_step (m : List (Str × Str)) (nd : Str) (k : Str) (acc : List Str) :
+    cleanBody m nd acc k = some (acc ++ (cleanF m nd k).toList) := by
+  unfold cleanBody cleanF
+  simp only [Py.contains, hasKey, Py.getitem]
+  cases h : lookup k m with
+  | none => simp
+  | some v =>
+    by_cases hv : v = nd
+    · simp [hv]
+    · simp [hv, fmt2]
+
+theorem clean_fold (m : List (Str × Str)) (nd : Str) (l : List Str) (acc : List Str) :
+    List.foldlM (cleanBody m nd) acc l = some (acc ++ l.filterMap (cleanF m nd)) := by
+  induction l generalizing acc with
+  | nil => simp [List.foldlM]
+  | cons k l ih =>
+    rw [List.foldlM_cons, clean_step]
+    simp only [Option.bind_eq_bind, Option.bind_some, ih, List.filterMap_cons]
+    cases cleanF m nd k <;> simp
+
+theorem sev_step (acc : List Str) (score : Option Rat) :
+    (do
+      let severities := acc
+      let severities ← (if (score = none) then (do
+          let severities : List Str := severities ++ [c!"None"]
+          pure severities) else (do
+          let v1 ← Py.req score
+          let severities ← (if (v1 ≤ (mkRat (39) 10)) then (do
+              let severities : List Str := severities ++ [c!"Low"]
+              pure severities) else (do
+              let v2 ← Py.req score
+              let severities ← (if (v2 ≤ (mkRat (69) 10)) then (do
+                  let severities : List Str := severities ++ [c!"Medium"]
+                  pure severities) else (do
+                  let severities : List Str := severities ++ [c!"High"]
+                  pure severities))
+              pure severities))
+          pure severities))
+      pure severities : Option (List Str)) = some (acc ++ [Model.V2.sevOf score]) := by
+  cases score with
+  | none => simp [Model.V2.sevOf]
+  | some s =>
+    simp only [Model.V2.sevOf, Model.V2.r, Py.req]
+    by_cases h1 : s ≤ mkRat 39 10
+    · simp [h1]
+    · by_cases h2 : s ≤ mkRat 69 10
+      · simp [h1, h2]
+      · simp [h1, h2]
+
+end Aux
+
+/-- `clean_vector()` -/
+theorem clean_vector_eq (self : Code2.Self) :
+    Code2.clean_vector self = some (Model.V2.cleanOf self.metrics) := by
+  unfold Code2.clean_vector Model.V2.cleanOf
+  have h := Aux.clean_fold self.metrics c!"ND" (keys Gen.V2.abbrs) []
+  simp only [List.nil_append] at h
+  show (List.foldlM (Aux.cleanBody self.metrics c!"ND") [] (keys Gen.V2.abbrs) >>=
+    fun v => pure (join '/' v)) = _
+  rw [h]
+  rfl
+
+/-- `severities()` (the base score is always set once `__init__` has run) -/
+theorem severities_eq (self : Code2.Self) :
+    Code2.severities self =
+      some [Model.V2.sevOf self.base_score, Model.V2.sevOf self.temporal_score,
+            Model.V2.sevOf self.environmental_score] := by
+  unfold Code2.severities
+  simp only [List.foldlM_cons, List.foldlM_nil, Aux.sev_step]
+  rfl
+
+/-- `temporal_vector()` / `environmental_vector()` -/
+theorem temporal_vector_eq (self : Code2.Self) (o : Model.V2.Obj) (h : o.metrics = self.metrics) :
+    Code2.temporal_vector self = some o.temporalVector := by
+  unfold Code2.temporal_vector Model.V2.Obj.temporalVector
+  simp [h, Model.V2.ND]
+
+theorem environmental_vector_eq (self : Code2.Self) (o : Model.V2.Obj) (h : o.metrics = self.metrics) :
+    Code2.environmental_vector self = some o.environmentalVector := by
+  unfold Code2.environmental_vector Model.V2.Obj.environmentalVector
+  simp [h, Model.V2.ND]
+
 end Cvss.Props.CodeTie2
